@@ -401,6 +401,29 @@ def worker(job, r):
                         break
                 except (R.NotInDomain, R.TlvError):
                     continue
+        # the same signature carrying a second anchor: next to its publication record a genuine calendar authentication record of another
+        # calendar root (resp. next to its authentication record the publication of another root). No such signature is in the schema; if
+        # the parser lets it through, the key-based policy must still not answer OK on the strength of a record that is not about this calendar chain
+        if kind in ('pub', 'auth:ok') and rng.random() < 0.3:
+            import copy
+            m2 = copy.copy(s)
+            ot, oroot = s.cal.pub_time - rng.choice([0, 86400]), gen.rnd_imprint(rng, 1)
+            if kind == 'pub':
+                m2.calauth = R.cal_auth_record(ot, oroot, sigtype='1.2.840.113549.1.1.11', sigval=sign_pubdata(w.cert_ok, ot, oroot, work), certid=w.cert_ok.id)
+            else:
+                m2.pub = R.pub_record(s.cal.pub_time, s.cal.root())
+                m2.calauth = R.cal_auth_record(ot, oroot, sigtype='1.2.840.113549.1.1.11', sigval=sign_pubdata(w.cert_ok, ot, oroot, work), certid=w.cert_ok.id)
+            raw2 = m2.enc().hex()
+            q2 = c('sigparse 0 2 empty ' + raw2)
+            if q2.rc != 0:
+                r.count('two_anchor_signatures_refused_by_parser')
+            else:
+                r.count('two_anchor_signatures_parsed')
+                q2 = c('verify 0 2 key ext=0' + (' pubfile=1' if F is not None else ''))
+                r.observe(None)
+                if q2.rc == 0 and q2.get('res') == '0':
+                    r.viol('key:two-anchors:foreign-authentication-record:OK', 'key-based policy answers OK for a signature whose calendar authentication record is about another calendar root (rule=%s)' % q2.get('rule'), 'kind=%s sig=%s' % (kind, raw2))
+                c('sigfree 2')
         sc = dict(sig=s, kind=kind, userpub=userpub, pubfile=F, ext=ext, ext_allowed=allowed, world=w,
                   no_right_links=not any(not l for l, _ in (w.cal.chain(t, t + 5000, s.root).links)))
         for policy in ('userpub', 'pubfile', 'key', 'calendar', 'general'):
